@@ -11,6 +11,8 @@
  * Monitors: TSan reports (keyed by the driver from stderr), once:et:*, wait:et:*, timer:et:*, hang:et:*.
  * Worker-protocol output comes from the main thread only, after the client threads have been joined; the
  * watchdog thread leaves with write(2)+_exit() when the run is stuck (see et_core.h). */
+#include <signal.h>
+#include <time.h>
 #include "ares.h"
 #include <stddef.h>
 #include "et_core.h"
@@ -60,6 +62,7 @@ static void et_make_cfg(const char *profile, vh_rng_t *g, uint64_t idx)
     c->slow_cb_us          = vh_chance(g, 1, 4) ? 200 + (int)vh_below(g, 2000) : 0;
     c->reinit_mode         = (int)vh_below(g, 5);
     c->reload_vs_destroy   = vh_chance(g, 1, 3);
+    c->signals             = vh_chance(g, 1, 6);
     for (i = 0; i < ET_NSRV; i++) {
       uint32_t x = vh_below(g, 16);
       c->beh[i]  = x < 9 ? ET_B_ANSWER : x < 11 ? ET_B_DELAY : x < 12 ? ET_B_SILENT : x < 13 ? ET_B_SERVFAIL
@@ -171,6 +174,7 @@ static void et_make_cfg(const char *profile, vh_rng_t *g, uint64_t idx)
     }
     /* same blocks: the fresh-connection/silent-server cases use a per-try timeout above one second, so the
      * back end's sleep has a seconds part as well as a sub-second part */
+    c->signals      = vh_chance(g, 1, 3);
     c->long_timeout = (c->conn_sit == ET_CONN_FRESH) && (c->srv_sit == ET_SIT_SILENT) && ((idx / 27) % 2 == 1);
     if (c->long_timeout) {
       c->nsrv          = 1;
@@ -359,6 +363,67 @@ static void et_reset_state(void)
     }                                                       \
   } while (0)
 
+/* ---------- signals for the library's threads ----------
+ * A thread inherits the signal mask of its creator.  SIGUSR1 is unblocked in the main thread while it creates the
+ * channel (so the event thread, and every thread that one creates, takes the signal) and blocked there - and so in
+ * every harness thread started afterwards - before the timer starts: each tick interrupts a wait of a library
+ * thread (epoll_wait/poll/select do not restart), everything else restarts (SA_RESTART). */
+static timer_t          et_sig_timer;
+static int              et_sig_timer_ok, et_sig_running;
+static _Atomic uint64_t et_n_signals;
+static void et_sig_handler(int sig)
+{
+  (void)sig;
+  atomic_fetch_add_explicit(&et_n_signals, 1, memory_order_relaxed);
+}
+static void et_signals_prepare(void)
+{
+  static int       installed;
+  sigset_t         ss;
+  if (!installed) {
+    struct sigaction sa;
+    struct sigevent  ev;
+    memset(&sa, 0, sizeof(sa));
+    sa.sa_handler = et_sig_handler;
+    sa.sa_flags   = SA_RESTART;
+    sigemptyset(&sa.sa_mask);
+    sigaction(SIGUSR1, &sa, NULL);
+    memset(&ev, 0, sizeof(ev));
+    ev.sigev_notify = SIGEV_SIGNAL;
+    ev.sigev_signo  = SIGUSR1;
+    et_sig_timer_ok = timer_create(CLOCK_MONOTONIC, &ev, &et_sig_timer) == 0;
+    installed       = 1;
+  }
+  sigemptyset(&ss);
+  sigaddset(&ss, SIGUSR1);
+  pthread_sigmask(SIG_UNBLOCK, &ss, NULL);
+}
+static void et_signals_start(void)
+{
+  struct itimerspec its;
+  sigset_t          ss;
+  sigemptyset(&ss);
+  sigaddset(&ss, SIGUSR1);
+  pthread_sigmask(SIG_BLOCK, &ss, NULL);
+  if (!et_sig_timer_ok) {
+    return;
+  }
+  memset(&its, 0, sizeof(its));
+  its.it_value.tv_nsec    = 37 * 1000000L;
+  its.it_interval.tv_nsec = 37 * 1000000L;
+  timer_settime(et_sig_timer, 0, &its, NULL);
+  et_sig_running = 1;
+}
+static void et_signals_stop(void)
+{
+  if (et_sig_running) {
+    struct itimerspec its;
+    memset(&its, 0, sizeof(its));
+    timer_settime(et_sig_timer, 0, &its, NULL);
+    et_sig_running = 0;
+  }
+}
+
 static void et_run_case(const char *profile, uint64_t seed, uint64_t idx)
 {
   vh_rng_t            g;
@@ -426,6 +491,7 @@ static void et_run_case(const char *profile, uint64_t seed, uint64_t idx)
             ARES_OPT_UDP_MAX_QUERIES | ARES_OPT_QUERY_CACHE | ARES_OPT_EVENT_THREAD |
             (et_cfg.rotate ? ARES_OPT_ROTATE : ARES_OPT_NOROTATE);
 
+  et_signals_prepare();
   ares_library_init(ARES_LIB_INIT_ALL);
   if (!ares_threadsafety()) {
     vh_inconclusive("not-threadsafe-build");
@@ -451,6 +517,9 @@ static void et_run_case(const char *profile, uint64_t seed, uint64_t idx)
                                                               : "10.0.0.1:53");
   }
 
+  if (et_cfg.signals) {
+    et_signals_start();
+  }
   __real_pthread_create(&th_resp, NULL, et_responder, NULL);
   {
     /* the first library thread that sleeps is the event thread of the channel under test */
@@ -537,6 +606,7 @@ static void et_run_case(const char *profile, uint64_t seed, uint64_t idx)
   close(et_resp_wake[1]);
   et_resp_wake[0] = et_resp_wake[1] = -1;
   alarm(0);
+  et_signals_stop();
 
   /* ---------- monitors ---------- */
   {
@@ -754,6 +824,10 @@ static void et_run_case(const char *profile, uint64_t seed, uint64_t idx)
   ET_CNT("et_wait.woken_by_event", et_n_wake_events);
   ET_CNT("et_wait.ran_into_timeout", et_n_wake_timeout);
   ET_CNT("et_wait.other_event_threads", et_n_other_et_waits);
+  ET_CNT("signals.delivered_to_library_threads", et_n_signals);
+  if (et_cfg.signals) {
+    vh_count("case.with_signals");
+  }
   ET_CNT("monitor.lock_balance.evaluated", et_n_lockbal_eval);
   ET_CNT("monitor.readable_socket.seen", et_n_readable_seen);
   ET_CNT("monitor.readable_socket.judged_after_200ms", et_n_readable_judged);
